@@ -5,6 +5,8 @@ import AfkakProofs.Consumer.InvP
 namespace Afkak.Proofs.Consumer
 open Afkak.Consumer Afkak.Monitor Afkak.Consts
 
+variable [EnvHyp]
+
 /-- while stopping, cancelling the request does not schedule a refetch -/
 theorem stopReq_retry (cfg : Cfg) (s : St) (hst : s.stopping = true) : (stopReq cfg s).retryCall = s.retryCall := by
   unfold stopReq handleFetchError handleOffsetError fetchErrorTail offsetErrorTail startErrback retryFetch emit
